@@ -5,13 +5,14 @@ for d in sorted(glob.glob('/verif/seeded/*')):
     m=json.load(open(os.path.join(d,'meta.json')))
     desc=' '.join(m['description'].split())
     first=desc[:230]+('...' if len(desc)>230 else '')
-    missed='MISSED' in m['caught_by']
+    missed='MISSED' in m['caught_by'] or 'Initially only' in m['caught_by']
     rows.append((os.path.basename(d), m['property'], first.replace('|','/'), m['caught_by'].replace('|','/'), 'initially missed' if missed else 'caught'))
 txt="## 7. Which checks catch which seeded changes\n\nIndependently written changes (sub-agents that saw only the property text and a scratch worktree; each keeps the 126 tests green\nand comes with a failing demonstration; all confirmed with tools/seed_eval.sh by applying the patch to /repo, running the\nchecks and undoing it).  `seeded/<id>/` holds patch.diff, demo.py, meta.json.\n\n| seed | change (abridged) | caught by | first run |\n|---|---|---|---|\n"
 for r in rows:
     txt+="| %s | %s | %s | %s |\n" % (r[0], r[2], r[3], r[4])
 n=len(rows); miss=sum(1 for r in rows if r[4]!='caught')
-txt+="\n%d seeded changes; %d were caught by the checks as they stood, %d were missed at first and led to the strengthening named in the row (every one is caught now).\nThe misses had three causes: (1) functions behind SVD/QR/transcendental leaves had no contract at all -> bounded lattice stand-ins were added; (2) effects outside the idealised arithmetic (tolerances, dtype truncation, magnitudes beyond 2^52) -> bounded numeric stand-ins; (3) case sets that did not enumerate a collection/single mix, a tier (3D case only in the thorough tier) or an operation sequence -> cases added.\n" % (n, n-miss, miss)
+txt+="\nRound 1 (ids -1, -2) was written against the pinned tree plus the first fixes; round 2 (ids -3, -4) against the tree after 22 fixes, with the instruction to prefer rarely exercised paths (collections, 3D, degenerate positions, subclasses, shared helpers).  Round-2 agents also produced 16 near-duplicates of round-1 changes, which were not evaluated again, and several remarks about the CLEAN tree that turned out to be genuine defects (section 6).\n"
+txt+="\n%d seeded changes; %d were caught by the checks as they stood, %d were missed at first and led to the strengthening named in the row (every one is caught now).\nThe misses had four causes: (1) functions behind SVD/QR/transcendental leaves had no contract at all -> bounded lattice stand-ins were added; (2) effects outside the idealised arithmetic (tolerances, dtype truncation, magnitudes beyond 2^52) -> bounded numeric stand-ins; (3) case sets that did not enumerate a collection/single mix, a collection SHAPE, a tier (3D case only in the thorough tier), an operation sequence (caches, state computed before a transformation) or a non-default homogeneous representative -> cases added; (4) a precondition copied from the code instead of the property (is_collinear with coincident first points) -> contract rewritten.\n" % (n, n-miss, miss)
 s=open('/verif/DESIGN.md').read()
 i=s.index('## 7. Which checks catch which seeded changes')
 open('/verif/DESIGN.md','w').write(s[:i]+txt)
